@@ -1439,6 +1439,11 @@ func (i SmallInt) ModuloBigInt(other *BigInt) (Value, Value) {
 		return (i % oSmall).ToValue(), Undefined
 	}
 
+	// |other| > |i| unless i is MinSmallInt and other is its negation
+	if i == MinSmallInt && other.ToGoBigInt().CmpAbs(big.NewInt(int64(i))) == 0 {
+		return SmallInt(0).ToValue(), Undefined
+	}
+
 	return i.ToValue(), Undefined
 }
 
